@@ -13,6 +13,8 @@ use rv_harness::*;
 
 #[path = "../scene_kernel.rs"]
 mod scene_kernel;
+#[path = "../backend_kernel.rs"]
+mod backend_kernel;
 
 fn guard<T>(f: impl FnOnce() -> T) -> Option<T> {
     catch_unwind(AssertUnwindSafe(f)).ok()
@@ -478,6 +480,7 @@ fn handle(cmd: &str, args: &[&str]) -> String {
         "vis" => vis(args),
         "cond" => cond(args),
         "cond_long" => cond_long(args),
+        "backend" => backend_kernel::backend(args),
         "tcp" => tcp(args),
         "proto" => proto(args),
         "proto_names" => proto_names(),
